@@ -115,9 +115,16 @@ impl Cursor {
         match self {
             Self::BeginAligned(cursor) => {
                 if distance >= 0 {
-                    Ok(Self::BeginAligned(cursor + distance as usize))
-                } else if distance.abs() as usize <= *cursor {
-                    Ok(Self::BeginAligned(cursor - distance.abs() as usize))
+                    //(a shift beyond the largest position there is, is out of bounds as well)
+                    match cursor.checked_add(distance as usize) {
+                        Some(shifted) => Ok(Self::BeginAligned(shifted)),
+                        None => Err(StamError::CursorOutOfBounds(
+                            Cursor::BeginAligned(*cursor),
+                            "Can't shift cursor to the right, result exceeds the maximum position",
+                        )),
+                    }
+                } else if distance.unsigned_abs() <= *cursor {
+                    Ok(Self::BeginAligned(cursor - distance.unsigned_abs()))
                 } else {
                     Err(StamError::CursorOutOfBounds(
                         Cursor::BeginAligned(*cursor),
@@ -127,8 +134,15 @@ impl Cursor {
             }
             Self::EndAligned(cursor) => {
                 if distance <= 0 {
-                    Ok(Self::EndAligned(cursor + distance))
-                } else if distance <= cursor.abs() {
+                    //(a shift beyond the smallest position there is, is out of bounds as well)
+                    match cursor.checked_add(distance) {
+                        Some(shifted) => Ok(Self::EndAligned(shifted)),
+                        None => Err(StamError::CursorOutOfBounds(
+                            Cursor::EndAligned(*cursor),
+                            "Can't shift cursor to the left, result exceeds the minimum position",
+                        )),
+                    }
+                } else if *cursor <= 0 && distance.unsigned_abs() <= cursor.unsigned_abs() {
                     Ok(Self::EndAligned(cursor + distance))
                 } else {
                     Err(StamError::CursorOutOfBounds(
